@@ -1,7 +1,7 @@
 (* GenGlobals.v - GENERATED from /repo by /verif/translator; do not edit.
    source cssutils/parse.py sha1 ebf8d99056d2
    source cssutils/prodparser.py sha1 78821d855d6b
-   source cssutils/stylesheets/mediaquery.py sha1 acbfe5b0c319
+   source cssutils/stylesheets/mediaquery.py sha1 c3549c265c12
 *)
 From Coq Require Import List NArith ZArith Bool.
 From CssV Require Import Base.Regex Base.Tokens.
